@@ -4,6 +4,7 @@ import re
 
 from . import core
 
+EXT = []
 AWKWARD = {"type", "my-field", "int", "Upper", "a_b", "X-Hdr", "my-p"}
 
 
@@ -94,6 +95,8 @@ def gen_docs(ctx, quick):
     epa = core.generate(ctx, "InteropGen", "GenInteropEpA.cfg", timeout=900)
     epb = core.generate(ctx, "InteropGen", "GenInteropEpB.cfg", timeout=900)
     pair = core.generate(ctx, "InteropGen", "GenInteropPair.cfg", timeout=900)
+    global EXT
+    EXT = core.generate(ctx, "InteropGen", "GenInteropExt.cfg", timeout=900)
     rnd = core.generate(ctx, "InteropGen", "GenInteropRandom.cfg", num=40 if quick else 600, depth=20, seed=ctx.seed * 100 + 11)
     awk = core.generate(ctx, "InteropGen", "GenInteropRandomAwk.cfg", num=20 if quick else 300, depth=20, seed=ctx.seed * 100 + 12)
     return field, epa, epb, pair, rnd, awk
@@ -171,7 +174,7 @@ def judge(ctx, pid, scn, events, prints, family="interop"):
                     shared = any(shared_array_param(s["doc"], ["P", "", q["name"], "", "", "1"]) for e in s["doc"]["eps"] for q in e["params"] if q["arr"])
                     detail = "array-parameter-name-shared-by-operations" if shared else "plain"
                 if name == "OutputDoesNotCompile":
-                    detail = syntax_class(last_text.get((p["t"], "import")))
+                    detail = syntax_class(last_text.get((p["t"], "import")) or last_text.get((p["t"], "compile")))
                 core.add_violation(ctx, "%s/%s/%s" % (pre, name, detail), what,
                                    {"family": family, "scenario": s, "text": (last_text.get((p["t"], "render")) or last_text.get((p["t"], "compile")) or "")[:3000]})
 
@@ -207,6 +210,9 @@ def check_c11(ctx):
             add(d["openapi"], "swagger", "yaml", pathlevel=pl)
         if i % (step * 4) == ctx.seed % (step * 4):
             add(d["openapi"], "openapi3", "yaml", pathlevel="yes")
+    # extension chains (only XSD can say "extends")
+    for d in EXT:
+        add(d["xsd"], "xsd")
     for i, d in enumerate(rnd + awk):
         add(d["openapi"], "swagger", "yaml")
         add(d["openapi"], "openapi3", "yaml")
@@ -222,7 +228,7 @@ def check_c11(ctx):
     for s in scn:
         per[s["fmt"]] = per.get(s["fmt"], 0) + 1
     cov = {"states": max(states, 1), "transitions": max(states, 1), "traces_validated_against_impl": len(scn),
-           "documents": {"field_shapes": len(field), "endpoint_shapes": len(epa) + len(epb), "operation_pairs": len(pair), "random": len(rnd), "random_awkward_names": len(awk)},
+           "documents": {"field_shapes": len(field), "endpoint_shapes": len(epa) + len(epb), "operation_pairs": len(pair), "extension_chains": len(EXT), "random": len(rnd), "random_awkward_names": len(awk)},
            "runs_per_format": per,
            "stages_run": sum(1 for e in events if e["e"] == "stage"),
            "facts_observed": sum(len(e.get("facts", [])) for e in events if e["e"] == "stage"),
